@@ -436,6 +436,41 @@ func (w *World) doRecv(t *Thread, c *chanState) (any, bool) {
 	panic("vsched: receive scheduled on a channel that is not ready")
 }
 
+// SendOrClosed is `ch <- v` that reports false instead of panicking when the channel is (or
+// gets) closed; used by the in-memory transport, where a closed pipe is an ordinary outcome.
+func SendOrClosed[T any](ch chan<- T, v T) bool {
+	w := live()
+	if w == nil {
+		return false
+	}
+	c := w.chanOf(ch)
+	t := w.cur
+	t.p = pend{kind: KSend, ch: c, val: v}
+	w.schedule(t, false)
+	taken := t.p.taken
+	t.p.kind = KNone
+	t.p.val = nil
+	if c.closed && !taken {
+		w.event(t, KSend, c.o, true, 2)
+		return false
+	}
+	if !taken {
+		c.q = append(c.q, v)
+	}
+	w.event(t, KSend, c.o, true, 0)
+	return true
+}
+
+// IsClosed reports whether a modelled channel has been closed (no scheduling point).
+func IsClosed[T any](ch chan T) bool {
+	w := live()
+	if w == nil {
+		return false
+	}
+	c := chanOfT(w, ch)
+	return c != nil && c.closed
+}
+
 // Recv2 is `v, ok := <-ch`.
 func Recv2[T any](ch <-chan T) (T, bool) {
 	var zero T
